@@ -83,6 +83,24 @@ Theorem C15_render_state_reset : render_state_reset = true.
 Proof. exact render_state_reset_ok. Qed.
 Print Assumptions C15_render_state_reset.
 
+(* Source-translation tie (round 3).  Gen/GlobalWrites.v carries, regenerated from the source on every run:
+   reads_before_write = every (method, attribute) of DocutilsRenderer / SphinxRenderer where self.<attribute> is read
+   before any assignment to it in the same method; init_src / setup_render_src = the attribute assignments of
+   __init__ and of setup_render (base class, then the Sphinx override) as code.  For EVERY state st that earlier
+   renders may have left in the instance, each such attribute is Fresh after init_src and setup_render_src:
+   no renderer method can observe a value of an earlier render.  (A new per-render attribute that setup_render
+   forgets, or one moved to a class attribute, makes the computation get stuck on [st "attr"].) *)
+Theorem C15_render_state_reset_src :
+  forall st : rstate, forallb (fun a => is_fresh (setup_render_src (init_src st) a)) (map snd reads_before_write) = true.
+Proof. exact reset_ok_all. Qed.
+Print Assumptions C15_render_state_reset_src.
+
+(* merge_file_level translated to steps on named objects (bindings, writes, returns in source order): the object
+   passed as [config] is never written and never returned; the object returned is the copy *)
+Theorem C15_merge_copies_src : merge_copies_ok = true.
+Proof. exact merge_copies. Qed.
+Print Assumptions C15_merge_copies_src.
+
 (* per-document data live under env.metadata[docname]; when the documents are partitioned among
    the read workers (no docname belongs to two workers) merging the workers' environments into
    the main one in any order yields the same map *)
